@@ -193,26 +193,36 @@ def balance_and_limits(tokens):
 
 
 # ------------------------------------------------------------------------------- DOCTYPE extent
-def doctype_slice(data, at):
-    """For a document whose DTD is well-formed (expat accepted it): the bytes between '<!DOCTYPE' and the '>' that
-    ends the declaration, found with a literal-aware scan (quoted literals, comments and PIs inside the internal
-    subset may contain '[', ']' and '>'). `at` = byte index of '<!DOCTYPE' as reported by expat. -> bytes or None."""
-    # expat's index is that of the token which completed the declaration's head ('[' or '>'): the keyword is the
-    # last "<!DOCTYPE" before it
-    i = data.rfind(b"<!DOCTYPE", 0, at) if at is not None else -1
-    if i < 0:
-        return None
-    start = i + 9
-    pos, n = start, len(data)
+def doctype_slice(data, at=None):
+    """For a document expat accepted (prolog and DTD are well-formed): the bytes between '<!DOCTYPE' and the '>' that
+    ends the declaration. The keyword is located by a forward scan of the prolog (BOM, XML declaration, white space,
+    comments, PIs), the end by a literal-aware scan (quoted literals anywhere, comments and PIs inside the internal
+    subset may contain '[', ']' and '>'). -> bytes, or None when the document has no DOCTYPE."""
+    n = len(data)
+    pos = 3 if data.startswith(b"\xef\xbb\xbf") else 0
+    while True:
+        while pos < n and data[pos] in XML_WS:
+            pos += 1
+        if data.startswith(b"<?", pos):
+            e = data.find(b"?>", pos + 2)
+            if e < 0:
+                return None
+            pos = e + 2
+        elif data.startswith(b"<!--", pos):
+            e = data.find(b"-->", pos + 4)
+            if e < 0:
+                return None
+            pos = e + 3
+        elif data.startswith(b"<!DOCTYPE", pos):
+            break
+        else:
+            return None
+    start = pos + 9
+    pos = start
     in_subset = False
     while pos < n:
         c = data[pos:pos + 1]
-        if c in (b'"', b"'"):
-            q = data.find(c, pos + 1)
-            if q < 0:
-                return None
-            pos = q + 1
-        elif in_subset and data.startswith(b"<!--", pos):
+        if in_subset and data.startswith(b"<!--", pos):
             e = data.find(b"-->", pos + 4)
             if e < 0:
                 return None
@@ -222,6 +232,11 @@ def doctype_slice(data, at):
             if e < 0:
                 return None
             pos = e + 2
+        elif c in (b'"', b"'"):
+            q = data.find(c, pos + 1)
+            if q < 0:
+                return None
+            pos = q + 1
         elif c == b"[":
             in_subset = True
             pos += 1
